@@ -133,8 +133,15 @@ spec fn pitems(has: ArcRel, qv: Seq<int>, pv: Seq<Option<int>>, vis: Seq<bool>, 
     &&& forall|i: int| 0 <= i < qv.len() ==> #[trigger] pitem_at(has, qv, pv, vis, srcs, d, i)
 }
 
+/// binv behind an opaque wall: its clause "visited ==> has_witness" and "source ==> visited" feed each other through the
+/// witness walk's first vertex (a matching loop); it is revealed only inside the small lemmas below
+#[verifier::opaque]
+spec fn binv_o(has: ArcRel, qv: Seq<int>, lv: Seq<int>, vis: Seq<bool>, srcs: Set<int>, d: spec_fn(int) -> int) -> bool {
+    binv(has, qv, lv, vis, srcs, d)
+}
+
 spec fn pinv(has: ArcRel, qv: Seq<int>, pv: Seq<Option<int>>, lv: Seq<int>, vis: Seq<bool>, srcs: Set<int>, d: spec_fn(int) -> int) -> bool {
-    &&& binv(has, qv, lv, vis, srcs, d)
+    &&& binv_o(has, qv, lv, vis, srcs, d)
     &&& pitems(has, qv, pv, vis, srcs, d)
 }
 
@@ -145,7 +152,87 @@ spec fn pstep(has: ArcRel, qv: Seq<int>, pv: Seq<Option<int>>, lv: Seq<int>, vis
     &&& pv2 == pv.skip(1) + Seq::new(add.len(), |k: int| Some(qv[0]))
 }
 
-/// the item part of one step, from the facts about the step that lemma_step / lemma_step_queue provide
+/// the witness-free part of binv
+spec fn bflat(qv: Seq<int>, lv: Seq<int>, vis: Seq<bool>, srcs: Set<int>, d: spec_fn(int) -> int) -> bool {
+    &&& lv.len() == qv.len()
+    &&& qv.no_duplicates()
+    &&& forall|i: int| 0 <= i < qv.len() ==> is_vis(vis, #[trigger] qv[i]) && d(qv[i]) == lv[i]
+    &&& forall|s: int| #[trigger] srcs.contains(s) ==> is_vis(vis, s)
+}
+
+proof fn lemma_bflat(has: ArcRel, qv: Seq<int>, lv: Seq<int>, vis: Seq<bool>, srcs: Set<int>, d: spec_fn(int) -> int)
+    requires binv_o(has, qv, lv, vis, srcs, d),
+    ensures bflat(qv, lv, vis, srcs, d),
+{
+    reveal(binv_o);
+}
+
+proof fn lemma_step_o(has: ArcRel, qv: Seq<int>, lv: Seq<int>, vis: Seq<bool>, qv2: Seq<int>, lv2: Seq<int>, vis2: Seq<bool>, add: Seq<int>, srcs: Set<int>, d: spec_fn(int) -> int)
+    requires
+        binv_o(has, qv, lv, vis, srcs, d),
+        bstep(has, qv, lv, vis, qv2, lv2, vis2, add),
+        forall|a: int, b: int| #[trigger] has(a, b) ==> 0 <= b < vis.len(),
+    ensures
+        binv_o(has, qv2, lv2, vis2, srcs, bstep_d(d, add, lv[0] + 1)),
+        forall|i: int| 0 <= i < lv2.len() ==> lv[0] <= #[trigger] lv2[i],
+{
+    reveal(binv_o);
+    lemma_step(has, qv, lv, vis, qv2, lv2, vis2, add, srcs, d);
+}
+
+proof fn lemma_front_o(has: ArcRel, qv: Seq<int>, lv: Seq<int>, vis: Seq<bool>, srcs: Set<int>, d: spec_fn(int) -> int)
+    requires binv_o(has, qv, lv, vis, srcs, d), qv.len() > 0,
+        forall|a: int, b: int| #[trigger] has(a, b) ==> 0 <= b < vis.len(),
+    ensures is_min_walk_weight(has, unit_w(), srcs, qv[0], lv[0]),
+{
+    reveal(binv_o);
+    lemma_front_exact(has, qv, lv, vis, srcs, d);
+}
+
+proof fn lemma_vis_exact_o(has: ArcRel, qv: Seq<int>, lv: Seq<int>, vis: Seq<bool>, srcs: Set<int>, d: spec_fn(int) -> int, x: int)
+    requires binv_o(has, qv, lv, vis, srcs, d), qv.len() > 0, is_vis(vis, x),
+        forall|a: int, b: int| #[trigger] has(a, b) ==> 0 <= b < vis.len(),
+    ensures is_min_walk_weight(has, unit_w(), srcs, x, d(x)),
+{
+    reveal(binv_o);
+    lemma_vis_exact_ne(has, qv, lv, vis, srcs, d, x);
+}
+
+proof fn lemma_queue_exact_o(has: ArcRel, qv: Seq<int>, lv: Seq<int>, vis: Seq<bool>, srcs: Set<int>, d: spec_fn(int) -> int, i: int)
+    requires binv_o(has, qv, lv, vis, srcs, d), 0 <= i < qv.len(),
+        forall|a: int, b: int| #[trigger] has(a, b) ==> 0 <= b < vis.len(),
+    ensures is_min_walk_weight(has, unit_w(), srcs, qv[i], lv[i]),
+{
+    reveal(binv_o);
+    lemma_queue_exact(has, qv, lv, vis, srcs, d, i);
+}
+
+proof fn lemma_exhausted_o(has: ArcRel, qv: Seq<int>, lv: Seq<int>, vis: Seq<bool>, srcs: Set<int>, d: spec_fn(int) -> int)
+    requires binv_o(has, qv, lv, vis, srcs, d), qv.len() == 0,
+    ensures forall|v: int| #[trigger] is_done(qv, vis, v) <==> reachable(has, srcs, v),
+{
+    reveal(binv_o);
+    lemma_exhausted(has, qv, lv, vis, srcs, d);
+    assert forall|v: int| #[trigger] is_done(qv, vis, v) <==> reachable(has, srcs, v) by {
+        assert(is_vis(vis, v) <==> reachable(has, srcs, v));
+    }
+}
+
+proof fn lemma_fresh_o(has: ArcRel, qv: Seq<int>, lv: Seq<int>, vis: Seq<bool>)
+    requires
+        lv.len() == qv.len(),
+        forall|i: int| 0 <= i < lv.len() ==> #[trigger] lv[i] == 0,
+        qv.no_duplicates(),
+        forall|v: int| #[trigger] is_vis(vis, v) <==> qv.contains(v),
+    ensures
+        binv_o(has, qv, lv, vis, qv.to_set(), |v: int| 0int),
+        forall|v: int| !is_done(qv, vis, v),
+{
+    reveal(binv_o);
+    lemma_fresh(has, qv, lv, vis);
+}
+
+/// the item part of one step, from the witness-free facts about the step
 proof fn lemma_pitems_step(has: ArcRel, qv: Seq<int>, pv: Seq<Option<int>>, vis: Seq<bool>, qv2: Seq<int>, pv2: Seq<Option<int>>, vis2: Seq<bool>, add: Seq<int>, srcs: Set<int>, d: spec_fn(int) -> int, d2: spec_fn(int) -> int)
     requires
         qv.len() > 0,
@@ -158,7 +245,7 @@ proof fn lemma_pitems_step(has: ArcRel, qv: Seq<int>, pv: Seq<Option<int>>, vis:
         pv2 == pv.skip(1) + Seq::new(add.len(), |k: int| Some(qv[0])),
         forall|v: int| #[trigger] is_done(qv2, vis2, v) <==> is_done(qv, vis, v) || v == qv[0],
         forall|k: int| 0 <= k < add.len() ==> !is_vis(vis, #[trigger] add[k]) && has(qv[0], add[k]) && d2(add[k]) == d(qv[0]) + 1,
-        forall|v: int| #[trigger] is_vis(vis, v) ==> d2(v) == d(v),
+        forall|v: int| is_vis(vis, v) ==> #[trigger] d2(v) == d(v),
     ensures
         pitems(has, qv2, pv2, vis2, srcs, d2),
 {
@@ -198,13 +285,17 @@ proof fn lemma_pstep(has: ArcRel, qv: Seq<int>, pv: Seq<Option<int>>, lv: Seq<in
         forall|a: int, b: int| #[trigger] has(a, b) ==> 0 <= b < vis.len(),
     ensures
         pinv(has, qv2, pv2, lv2, vis2, srcs, bstep_d(d, add, lv[0] + 1)),
+        forall|i: int| 0 <= i < lv2.len() ==> lv[0] <= #[trigger] lv2[i],
+        forall|v: int| #[trigger] is_done(qv2, vis2, v) <==> is_done(qv, vis, v) || v == qv[0],
+        !is_done(qv, vis, qv[0]),
 {
     let l = lv[0];
     let d2 = bstep_d(d, add, l + 1);
-    lemma_step(has, qv, lv, vis, qv2, lv2, vis2, add, srcs, d);
+    lemma_bflat(has, qv, lv, vis, srcs, d);
+    lemma_step_o(has, qv, lv, vis, qv2, lv2, vis2, add, srcs, d);
     lemma_step_queue(has, qv, lv, vis, qv2, lv2, vis2, add);
     assert(is_vis(vis, qv[0]) && d(qv[0]) == lv[0]);
-    assert forall|v: int| #[trigger] is_vis(vis, v) implies d2(v) == d(v) by {
+    assert forall|v: int| is_vis(vis, v) implies #[trigger] d2(v) == d(v) by {
         if add.contains(v) {
             let k = choose|k: int| 0 <= k < add.len() && add[k] == v;
             assert(!vis[add[k]]);
@@ -218,10 +309,11 @@ proof fn lemma_pstep(has: ArcRel, qv: Seq<int>, pv: Seq<Option<int>>, lv: Seq<in
 
 /// no walk from a source to a vertex that has not been yielded yet is shorter than the front level
 proof fn lemma_undone_lower(has: ArcRel, qv: Seq<int>, lv: Seq<int>, vis: Seq<bool>, srcs: Set<int>, d: spec_fn(int) -> int, t: int)
-    requires binv(has, qv, lv, vis, srcs, d), qv.len() > 0, !is_done(qv, vis, t),
+    requires binv_o(has, qv, lv, vis, srcs, d), qv.len() > 0, !is_done(qv, vis, t),
         forall|a: int, b: int| #[trigger] has(a, b) ==> 0 <= b < vis.len(),
     ensures is_lower_bound(has, unit_w(), srcs, t, lv[0]),
 {
+    reveal(binv_o);
     let l = lv[0];
     let dd = |v: int| if is_vis(vis, v) { d(v) } else { l + 1 };
     let r = set_int_range(0, vis.len() as int);
@@ -258,16 +350,15 @@ proof fn lemma_pnext_post(has: ArcRel, qv: Seq<int>, pv: Seq<Option<int>>, lv: S
 {
     let d = choose|d: spec_fn(int) -> int| pinv(has, qv, pv, lv, vis, srcs, d);
     lemma_pstep(has, qv, pv, lv, vis, qv2, pv2, lv2, vis2, add, srcs, d);
-    lemma_step(has, qv, lv, vis, qv2, lv2, vis2, add, srcs, d);
-    lemma_front_exact(has, qv, lv, vis, srcs, d);
-    lemma_step_queue(has, qv, lv, vis, qv2, lv2, vis2, add);
+    lemma_front_o(has, qv, lv, vis, srcs, d);
+    lemma_bflat(has, qv, lv, vis, srcs, d);
     assert forall|t: int| !#[trigger] is_done(qv, vis, t) implies is_lower_bound(has, unit_w(), srcs, t, lv[0]) by {
         lemma_undone_lower(has, qv, lv, vis, srcs, d, t);
     }
     assert(pitem_at(has, qv, pv, vis, srcs, d, 0));
     assert(is_vis(vis, qv[0]) && d(qv[0]) == lv[0]);
     match pv[0] {
-        Some(u) => { lemma_vis_exact_ne(has, qv, lv, vis, srcs, d, u); }
+        Some(u) => { lemma_vis_exact_o(has, qv, lv, vis, srcs, d, u); }
         None => {}
     }
 }
